@@ -273,7 +273,7 @@ pub fn run(ctx: &Ctx) -> Outcome {
     if out.failure.is_some() {
         return out;
     }
-    let s_str = prop_oneof![crate::props::c09::arb_sentence(true).prop_map(|s| s.into_bytes()), proptest::collection::vec(proptest::sample::select(b"AZaz09+-:,/.JM<> \0\x80\n".to_vec()), 0..40)];
+    let s_str = prop_oneof![crate::props::c09::arb_sentence(true).prop_map(|s| s.into_bytes()), crate::props::c09::arb_wrap_or_space(), proptest::collection::vec(proptest::sample::select(b"AZaz09+-:,/.JM<> \0\x80\n".to_vec()), 0..40)];
     let rs = par_shards(8, |shard, st| {
         pt_shard(ctx, "tzstr", 100 + shard, cases, &s_str, st, |b, st| {
             st.eval(1);
